@@ -1,6 +1,7 @@
 package main
 
 import (
+	"errors"
 	"bytes"
 	"io"
 	"math/rand"
@@ -189,6 +190,39 @@ func execControlRW(vec J, out *Writer) {
 			singles = append(singles, J{"w": B(w), "w_ok": werr == nil, "r": obsParas(r, rerr)})
 		}
 		out.Put(J{"ev": "write", "in": vec, "singles": singles, "cycles": cycles(ps, 3)})
+	case "write_fault":
+		// a sink that refuses exactly its k-th Write (nothing of it is stored, an error is returned), then works again:
+		// what the Encoder / WriteTo REPORT as written must be in the sink
+		ps := []control.Paragraph{}
+		for _, pj := range L(vec["paras"]) {
+			ps = append(ps, paraFromJ(M(pj)))
+		}
+		sink := &faultySink{failAt: I(vec["fail_at"])}
+		errs := []interface{}{}
+		func() {
+			defer func() {
+				if r := recover(); r != nil {
+					errs = append(errs, "panic")
+				}
+			}()
+			if vec["via"].(string) == "encoder" {
+				enc, err := control.NewEncoder(sink)
+				if err != nil {
+					return
+				}
+				for i := range ps {
+					errs = append(errs, enc.Encode(rawPara{ps[i]}) != nil)
+				}
+			} else {
+				for i := range ps {
+					if i > 0 {
+						sink.buf.WriteString("\n") // the caller's own separator, not through the faulty path
+					}
+					errs = append(errs, ps[i].WriteTo(sink) != nil)
+				}
+			}
+		}()
+		out.Put(J{"ev": "write_fault", "in": vec, "errs": errs, "sink": BB(sink.buf.Bytes()), "writes": sink.calls, "fired": sink.calls >= sink.failAt})
 	case "rw":
 		doc := S(vec["doc"])
 		r0, err := readAll(doc)
@@ -339,4 +373,19 @@ func genC08(seed int64, tier string, out *Writer) {
 		}
 		out.Put(J{"k": "write", "paras": ps})
 	}
+}
+
+// faultySink stores what is written to it, except for its failAt-th Write call, which stores nothing and fails.
+type faultySink struct {
+	buf    bytes.Buffer
+	calls  int
+	failAt int
+}
+
+func (f *faultySink) Write(p []byte) (int, error) {
+	f.calls++
+	if f.calls == f.failAt {
+		return 0, errors.New("injected write failure")
+	}
+	return f.buf.Write(p)
 }
